@@ -5,7 +5,7 @@ compared with the Coq model computing exact Z values lane by lane.  Float pools 
 the Coq model extracts, for every output position, the lane of input positions it stands for; the implementation's
 own 1-D call on that lane (second round of oracle queries, axis None) must give the value found there - the
 statement 'equals the 1-D operation on the lane' checked literally."""
-import itertools
+import itertools, os
 from common import *
 import vlib
 
@@ -116,7 +116,8 @@ def gen_rounds(seed, tier, run):
     # long lanes: a chunked / pairwise / early-exit reduction must not lose a tail
     shs += [[8], [17], [33], [64], [100], [2, 17], [17, 2], [3, 33], [33, 3], [2, 9, 2], [5, 7]]
     if tier == "thorough":
-        shs += [rand_shape(rng, 5, (1, 2, 3, 4)) for _ in range(300)]
+        # (an escalated quick run — /repo changed — uses a tenth of the thorough volume: the lane oracle is slow)
+        shs += [rand_shape(rng, 5, (1, 2, 3, 4)) for _ in range(30 if os.environ.get("VERIF_ESCALATED") else 300)]
     for k, sh in enumerate(shs):
         n = len(sh)
         axes = [None] + list(range(-n, n)) + [n, -n - 1, n + 2]
